@@ -140,6 +140,13 @@ def main():
             prop = name[:3]
             if only and prop not in only and name not in only:
                 return None
+            try:
+                meta = json.load(open(os.path.join(HERE, 'seeded', name, 'meta.json')))
+                caught = [k for k, v in meta.get('checks_run', {}).items() if v.get('exit') == 1]
+                if caught and prop not in caught:
+                    prop = caught[0]      # e.g. a change to the JS reader filed under the Python reader's property: the JS twin's check decides
+            except Exception:
+                pass
             d = tempfile.mkdtemp(prefix='seedrun-', dir='/var/tmp')
             try:
                 sh(['rsync', '-a', '--exclude', '.git', '/repo/', d + '/'])
